@@ -1,7 +1,7 @@
 """C03 — timestamps <-> epoch seconds (tracklib/core/obs_time.py).
 
 Three models are driven: the model of the `zone` label and of the objects (command prog: programs of statements over a store of
-ObsTime objects, run on real objects and in Lean; what Z1-Z12 are about), and the two models of the conversions: the integer model (commands read/abs/cmp/add; what T1-T6 are about) and the generic model
+ObsTime objects, run on real objects and in Lean; what Z1-Z13 are about), and the two models of the conversions: the integer model (commands read/abs/cmp/add; what T1-T6 are about) and the generic model
 of the float path instantiated at IEEE doubles (readf/absf/rtf/addf/cmpf/subf; what T7-T14 are about in exact
 arithmetic). The correspondence with the float-path model and with the program model (itself at IEEE doubles) is exact (fields and
 bit patterns); the integer model is compared up to the documented "one millisecond low" of the float code. The oracle (`spec`) uses only the calendar of the
@@ -163,6 +163,7 @@ class P(Prop):
         ("TracklibVerif.Props.C03", "TV.C03.dayOfWeek_spec", "getDayOfWeek() of a well-formed stamp is (proleptic Gregorian day number + 3) mod 7 in Mon..Sun, whatever the label"),
         ("TracklibVerif.Props.C03", "TV.C03.step_frame", "objects: no conversion, offset, comparison, copy or Track.convertToTimeZone/addSeconds changes an existing object (its operand included); only `o.field = v` and Track.setTimeZone write, and only into their targets"),
         ("TracklibVerif.Props.C03", "TV.C03.step_fresh", "objects: a call that returns a stamp returns a new object (appended to the store), and readUnixTime(x) does not depend on the state"),
+        ("TracklibVerif.Props.C03", "TV.C03.run_frame", "objects, whole programs: a program without attribute assignments and without Track.setTimeZone leaves every object that existed before it exactly as it was"),
         ("TracklibVerif.Props.C03", "TV.C03.read_again", "readUnixTime(x) after any program run on its earlier result (attribute assignments included) gives the same stamp again"),
         ("TracklibVerif.Props.C03", "TV.C03.printZone_inj", "printZone() is Z exactly for zone 0 and distinct zones -24..+24 print differently"),
     ]
